@@ -439,7 +439,50 @@ fn tight_fit_part<V: Pq>(ctx: &mut Ctx) {
     ctx.add_part(part);
 }
 
+/// both interop directions along a history of messages of shrinking and growing length on ONE thread (buffers that
+/// only grow, memos of the last hashed input)
+fn message_history_part<V: Pq>(ctx: &mut Ctx) {
+    let n = V::N;
+    let (sk, pk) = crate::api::key::<V>(0);
+    let (skb, pkb) = (V::sk_to_bytes(&sk), V::pk_to_bytes(&pk));
+    let msgs: Vec<Vec<u8>> = vec![vec![0x61u8; 600], vec![], b"data1".to_vec(), vec![0x62u8; 2000], b"a".to_vec(), vec![0x61u8; 600], b"data1".to_vec()];
+    let mut part = Part::new(&format!("message_history_{}", n), "messages of 600, 0, 5, 2000, 1, 600, 5 bytes in this order on one fresh thread: at every step our signature verifies in the reference and the reference's signature (same key) verifies here");
+    let ms = msgs.clone();
+    let pkb2 = pkb.clone();
+    let r = crate::sched::on_fresh_thread(move || {
+        let mut out: Vec<(bool, Option<bool>)> = vec![];
+        for (i, m) in ms.iter().enumerate() {
+            let ours = V::sig_to_bytes(&crate::util::with_stream(33 + i as u64, || V::sign(m, &sk)));
+            let a = V::pq_verify(&pq::rust_sig_to_pq(&ours), m, &pkb2);
+            let sseed = format!("c16-history-{}-{}", n, i).into_bytes();
+            let b = V::pq_sign(&sseed, m, &skb).and_then(|ps| pq::pq_sig_to_rust(&ps, sig_len(n))).and_then(|rs| V::sig_from_bytes(&rs).ok()).map(|s| V::verify(m, &s, &pk));
+            out.push((a, b));
+        }
+        out
+    });
+    match r {
+        Err(e) => ctx.violation(format!("sign-or-verify-panic:n={}:message-history", n), format!("panic in the message history: {}", e), json!({"kind":"message-history","variant":n})),
+        Ok(v) => {
+            for (i, (a, b)) in v.iter().enumerate() {
+                part.states += 1;
+                part.transitions += 4;
+                part.validated += 1;
+                if !a {
+                    ctx.violation(format!("reference-rejects-our-signature:n={}:message-history", n), format!("{}: step {} of the message history (a message of {} bytes after messages of other lengths on the same thread): our signature is rejected by the reference verifier", V::name(), i + 1, msgs[i].len()), json!({"kind":"message-history","variant":n,"step":i}));
+                }
+                if *b != Some(true) {
+                    ctx.violation(format!("we-reject-reference-signature:n={}:message-history", n), format!("{}: step {} of the message history (a message of {} bytes after messages of other lengths on the same thread): the reference's signature is not accepted here ({:?})", V::name(), i + 1, msgs[i].len(), b), json!({"kind":"message-history","variant":n,"step":i}));
+                }
+            }
+        }
+    }
+    part.exhaustive = true;
+    part.outcome("both directions agree at every step".to_string());
+    ctx.add_part(part);
+}
+
 fn one_variant<V: Pq>(ctx: &mut Ctx, tier: Tier) {
+    message_history_part::<V>(ctx);
     if V::N == 1024 {
         tight_fit_part::<V>(ctx);
     }
@@ -548,7 +591,7 @@ pub fn replay(case: &Value) -> Result<Option<String>, String> {
                 pq_key_case::<V1024>(&mut t, idx)
             }
         }
-        "large-coefficient" | "norm-boundary" | "length" | "tight" => return Err("re-run ./vf check C16 (the family is enumerated deterministically)".into()),
+        "large-coefficient" | "norm-boundary" | "length" | "tight" | "message-history" => return Err("re-run ./vf check C16 (the family is enumerated deterministically)".into()),
         _ => return Err(format!("unknown kind {}", kind)),
     }
     Ok(t.found.into_iter().next().map(|(_, f)| f.what))
